@@ -71,7 +71,17 @@ IsNeededFn(p) == p \in Range(X_.funcs)
 
 (* ---- the value a type must have in this call, when it is determined ------- *)
 \* [ok |-> TRUE, v |-> description] or [ok |-> FALSE]
-RECURSIVE Known(_)
+RECURSIVE Known(_), StructBody(_)
+\* the struct value a struct provider builds: selected fields from their sources, the rest zero
+StructBody(w) ==
+  IF \A i \in DOMAIN w.sel : Known(w.sel[i].t).ok
+  THEN [ok |-> TRUE,
+        v |-> IF w.sel = <<>> /\ w.rest = <<>> THEN [v |-> "struct{}"]
+              ELSE [s |-> [n \in {w.sel[i].f : i \in DOMAIN w.sel} \cup {w.rest[i].f : i \in DOMAIN w.rest} |->
+                      IF \E i \in DOMAIN w.sel : w.sel[i].f = n
+                      THEN Known(w.sel[CHOOSE i \in DOMAIN w.sel : w.sel[i].f = n].t).v
+                      ELSE ZeroD(P_, w.rest[CHOOSE i \in DOMAIN w.rest : w.rest[i].f = n].t)]]]
+  ELSE [ok |-> FALSE]
 Known(t0) ==
   LET t == Canon(t0) IN
   IF ~HasW(t) THEN [ok |-> FALSE]
@@ -81,14 +91,7 @@ Known(t0) ==
     [] w.k = "value" -> IF w.p \in DOMAIN consts THEN [ok |-> TRUE, v |-> consts[w.p]] ELSE [ok |-> FALSE]
     [] w.k = "struct" ->
          IF w.ptr THEN (IF t \in DOMAIN seen THEN [ok |-> TRUE, v |-> seen[t]] ELSE [ok |-> FALSE])
-         ELSE IF \A i \in DOMAIN w.sel : Known(w.sel[i].t).ok
-              THEN [ok |-> TRUE,
-                    v |-> IF w.sel = <<>> /\ w.rest = <<>> THEN [v |-> "struct{}"]
-                          ELSE [s |-> [n \in {w.sel[i].f : i \in DOMAIN w.sel} \cup {w.rest[i].f : i \in DOMAIN w.rest} |->
-                                  IF \E i \in DOMAIN w.sel : w.sel[i].f = n
-                                  THEN Known(w.sel[CHOOSE i \in DOMAIN w.sel : w.sel[i].f = n].t).v
-                                  ELSE ZeroD(P_, w.rest[CHOOSE i \in DOMAIN w.rest : w.rest[i].f = n].t)]]]
-              ELSE [ok |-> FALSE]
+         ELSE StructBody(w)
     [] w.k = "field" ->
          LET pk == Known(w.parent) IN
          IF ~pk.ok THEN [ok |-> FALSE]
